@@ -8,6 +8,7 @@ provider-side changes, some behind racing registrations), harness/cmd/rtreg runs
 package runtime through database.Interface, RuntimeRegTrace decides every recorded step.
 """
 import json
+import resource
 import vlib
 
 LEVEL = "model_checking"
@@ -28,7 +29,7 @@ def step_class(hist, ej):
     """Stable description of the failing step: operation, kind of provider situation, observed error."""
     ev = hist[ej]
     if ev.get("e") == "race":
-        return "race:" + ",".join(ev.get("errs", []))
+        return "race:register"
     o = ev.get("op", {})
     res = ev.get("res", {})
     # registrations made so far in this history (as the driver saw them succeed)
@@ -48,10 +49,10 @@ def step_class(hist, ej):
         resp = [kind for (rk, kind) in regs if rk == key or (rk.endswith("/") and key.startswith(rk))]
         where = "+".join(sorted(set(resp))) or "unmanaged"
     elif name == "query":
-        plain_above = any((not rk.endswith("/")) and key.startswith(rk) and rk != key for (rk, _) in regs)
+        plain_above = any((not rk.endswith("/")) and key.startswith(rk) for (rk, _) in regs)
         below = any(rk.startswith(key) for (rk, _) in regs)
         above = any(rk.endswith("/") and key.startswith(rk) for (rk, _) in regs)
-        where = "%s%s%s" % ("below" if below else "", "+above" if above else "", "+plainkey-is-prefix" if plain_above else "") or "none"
+        where = "+".join([t for t, on in (("below", below), ("above", above), ("plainkey-is-prefix", plain_above)) if on]) or "none"
     elif name == "register":
         where = "prefix" if key.endswith("/") else ("empty" if key == "" else "key")
     elif name in ("push", "poke"):
@@ -106,7 +107,8 @@ def execute(ctx, scripts):
 
 
 def judge(ctx, scripts, hists, owner, sig_override=None):
-    ok, rej, unex = vlib.validate(ctx, "RuntimeRegTrace", "RuntimeRegTrace.cfg", hists)
+    ok, rej, unex = vlib.validate(ctx, "RuntimeRegTrace", "RuntimeRegTrace.cfg", hists,
+                                  max_reject=5 if ctx.tier == "quick" else 40)
     for hi, ej, ev in rej:
         sig = sig_override or step_class(hists[hi], ej)
         ctx.violation(sig,
@@ -124,37 +126,59 @@ def nontrivial(s):
 
 def run(ctx):
     quick = ctx.tier == "quick"
-    # 1. laws of the reference semantics on every reachable state (exhaustive to a small depth)
-    mcs = []
-    mcs.append(ctx.tlc("RuntimeRegGen", cfg_text=vlib.cfg_text(
-        constants={"MaxLen": 3 if quick else 5, "MaxRegs": 3, "MaxSubs": 1, "Level": 1, "Emit": False, "RaceN": 0},
-        invariants=["Laws"], view="View"), timeout=3000))
-    if not quick:
-        mcs.append(ctx.tlc("RuntimeRegGen", cfg_text=vlib.cfg_text(
-            constants={"MaxLen": 3, "MaxRegs": 3, "MaxSubs": 1, "Level": 2, "Emit": False, "RaceN": 0},
-            invariants=["Laws"], view="View"), timeout=3000))
+    # 1. laws of the reference semantics on every reachable state (exhaustive to a small depth); runs
+    #    beside the conformance pipeline
+    def laws():
+        out = [ctx.tlc("RuntimeRegGen", cfg_text=vlib.cfg_text(
+            constants={"MaxLen": 4 if quick else 5, "MaxRegs": 3, "MaxSubs": 1, "Level": 1, "Emit": False, "RaceN": 0},
+            invariants=["Laws"], view="View"), workers=max(2, vlib.NCPU // 2), timeout=3000)]
+        if not quick:
+            out.append(ctx.tlc("RuntimeRegGen", cfg_text=vlib.cfg_text(
+                constants={"MaxLen": 2, "MaxRegs": 3, "MaxSubs": 1, "Level": 2, "Emit": False, "RaceN": 0},
+                invariants=["Laws"], view="View"), workers=max(2, vlib.NCPU // 2), timeout=3000))
+        return out
+    from concurrent.futures import ThreadPoolExecutor
+    pool = ThreadPoolExecutor(max_workers=1)
+    laws_future = pool.submit(laws)
     # 2. histories from the specification
     nsim = 4000 if quick else 80000
     scripts = generate(ctx, nsim)
     if len(scripts) < nsim // 2:
         raise vlib.Inconclusive("history generation produced only %d scripts" % len(scripts))
-    # 3. run them against the real package, 4. let TLC judge what was recorded
-    hists, owner = execute(ctx, scripts)
-    ok, unex = judge(ctx, scripts, hists, owner)
-    nevents = sum(len(h) for h in hists)
+    # 3. run them against the real package, 4. let TLC judge what was recorded; in batches, so that
+    #    neither this process nor the validating JVMs hold more than a few thousand histories at a time
+    import random
+    random.Random(ctx.seed).shuffle(scripts)   # every batch gets its share of the long histories
+    ok = unex = nevents = nraces = race_conflicts = race_reordered = 0
     ops = {}
-    for h in hists:
-        for e in h:
-            if e.get("e") == "op":
-                k = "%s:%s" % (e["op"]["op"], e["res"]["err"])
-                ops[k] = ops.get(k, 0) + 1
-    races = [e for h in hists for e in h if e.get("e") == "race"]
-    race_conflicts = len([e for e in races if "taken" in e["errs"]])
-    # outcomes that differ from making the registrations in the order of the list
-    race_reordered = len([e for e in races if "taken" in e["errs"] and "ok" in e["errs"][e["errs"].index("taken"):]
-                          and any(_conflict(e["keys"][i], e["keys"][j])
-                                  for i in range(len(e["keys"])) for j in range(i + 1, len(e["keys"]))
-                                  if e["errs"][i] == "taken" and e["errs"][j] == "ok")])
+    batch = 5000
+    for b0 in range(0, len(scripts), batch):
+        part = scripts[b0:b0 + batch]
+        hists, owner = execute(ctx, part)
+        k, u = judge(ctx, part, hists, owner)
+        ok += k
+        unex += u
+        for h in hists:
+            nevents += len(h)
+            for e in h:
+                if e.get("e") == "op":
+                    key = "%s:%s" % (e["op"]["op"], e["res"]["err"])
+                    ops[key] = ops.get(key, 0) + 1
+                elif e.get("e") == "race":
+                    nraces += 1
+                    errs, keys = e["errs"], e["keys"]
+                    if "taken" in errs:
+                        race_conflicts += 1
+                        # outcomes that differ from making the registrations in the order of the list
+                        if any(_conflict(keys[i], keys[j]) for i in range(len(keys)) for j in range(i + 1, len(keys))
+                               if errs[i] == "taken" and errs[j] == "ok"):
+                            race_reordered += 1
+        del hists
+        if len(ctx.violations) >= 12:
+            unex += len(scripts) - b0 - len(part)
+            break
+    mcs = laws_future.result()
+    pool.shutdown()
     distinct = len({vlib.sha(s) for s in scripts if nontrivial(s)})
     vlib.finish(ctx, LEVEL, {
         "states": sum(m.distinct for m in mcs), "transitions": sum(m.generated for m in mcs),
@@ -165,9 +189,10 @@ def run(ctx):
                 "get/put/query/delete among the operations; distinct by content hash",
         "events_validated": nevents, "histories_unexamined_after_rejections": unex,
         "operations_by_outcome": dict(sorted(ops.items())),
-        "racing_registrations": {"histories": len(races), "with_conflict": race_conflicts,
+        "racing_registrations": {"histories": nraces, "with_conflict": race_conflicts,
                                  "later_in_list_won": race_reordered},
         "samples": scripts[:2],
+        "check_process_maxrss_mb": resource.getrusage(resource.RUSAGE_SELF).ru_maxrss // 1024,
         "exhaustive": False,
     }, ["trace validation judges per step: result and error class, records of a query, what every subscription received, "
         "the calls the providers saw, the contents of the providers and what Get shows for every key of the history",
